@@ -622,90 +622,19 @@ fn main() {
     let init_ms = t0.elapsed().as_secs_f64() * 1e3;
     let cx = Cx { run: &run, distinct: &distinct, root: root.clone(), template, hist: Default::default() };
 
-    // ---- (A) histories -------------------------------------------------------------------------
-    let mut ops: Vec<Op> = Vec::new();
-    for p in [Pw::Cur, Pw::Prev, Pw::Never] {
-        for id in 0..2 {
-            ops.push(Op::Retrieve(id, p));
-        }
+    // development aid: VH_C18_PARTS=A,B,C selects families (default all; a partial run is reported as a cap).
+    // Order: the cheap families (crash images, corruption) first, the Argon2-heavy history search last, so that a
+    // wall-clock cap on a loaded machine cuts depth, not families.
+    let parts = std::env::var("VH_C18_PARTS").unwrap_or_else(|_| "A,B,C".into());
+    let part_on = |p: &str| parts.split(',').any(|x| x == p);
+    if parts != "A,B,C" {
+        run.cap_hit(format!("only families {parts} were run (VH_C18_PARTS)"));
     }
-    for p in [Pw::Cur, Pw::Prev, Pw::Never] {
-        for id in 0..2 {
-            for s in 0..2 {
-                ops.push(Op::Store(id, s, p));
-            }
-        }
-    }
-    for p in [Pw::Cur, Pw::Prev, Pw::Never] {
-        ops.push(Op::Change(p));
-    }
-    ops.push(Op::ClearCache);
-    ops.push(Op::Reopen);
-    if !quick {
-        ops.push(Op::ChangeBack);
-        ops.push(Op::ChangeWeak);
-    }
-    let t_a = Instant::now();
-    let mismatch = AtomicU64::new(0);
-    // merged search to fix-point
-    let st_m = bfs(
-        ops.len(),
-        12,
-        &budget,
-        |h| hist_step(&cx, &ops, h, true),
-        |_a, _b| {
-            mismatch.fetch_add(1, Ordering::Relaxed);
-        },
-    );
-    let wall_merged = t_a.elapsed().as_secs_f64();
-    // every history up to depth d without merging
-    let d_plain = run.tier.pick(2, 4);
-    let t_p = Instant::now();
-    let st_p = bfs(ops.len(), d_plain, &budget, |h| hist_step(&cx, &ops, h, false), |_a, _b| {});
-    let wall_plain = t_p.elapsed().as_secs_f64();
-
-    // ---- (B) corruption ------------------------------------------------------------------------
-    let t_b = Instant::now();
-    let mut images = vec![build_image(&cx, "init; store(s1,S0); store(s2,S1)", &[Op::Store(0, 0, Pw::Cur), Op::Store(1, 1, Pw::Cur)])];
-    if !quick {
-        images.push(build_image(&cx, "init; store(s1,S0); change_password; store(s2,S1)", &[Op::Store(0, 0, Pw::Cur), Op::Change(Pw::Cur), Op::Store(1, 1, Pw::Cur)]));
-        images.push(build_image(&cx, "init; store(s1,S1)", &[Op::Store(0, 1, Pw::Cur)]));
-    }
-    let mut cases: Vec<(usize, Damage)> = Vec::new();
-    for (ii, img) in images.iter().enumerate() {
-        for i in 0..img.bytes.len() {
-            for b in 0..8 {
-                cases.push((ii, Damage::Flip(i, b)));
-            }
-            cases.push((ii, Damage::Set(i, 0x00)));
-            cases.push((ii, Damage::Set(i, 0xFF)));
-        }
-        for n in 0..img.bytes.len() {
-            cases.push((ii, Damage::Truncate(n)));
-        }
-        cases.push((ii, Damage::Append(0x00)));
-        cases.push((ii, Damage::Append(0xFF)));
-    }
-    let corr_evals = AtomicU64::new(0);
-    let corr_done = AtomicU64::new(0);
-    par_for(cases.len(), |i| {
-        if budget.exceeded() {
-            return;
-        }
-        let (ii, d) = &cases[i];
-        let img = &images[*ii];
-        let ids: Vec<usize> = if quick { vec![0] } else { img.map.keys().copied().collect() };
-        let n = corruption_case(&cx, img, d, &ids, !quick);
-        corr_evals.fetch_add(n, Ordering::Relaxed);
-        corr_done.fetch_add(1, Ordering::Relaxed);
-    });
-    let wall_b = t_b.elapsed().as_secs_f64();
-
     // ---- (C) crash images ----------------------------------------------------------------------
     let t_c = Instant::now();
     let old_img = build_image(&cx, "init; store(s1,S0)", &[Op::Store(0, 0, Pw::Cur)]);
     let old = Content { pw: old_img.cur.clone(), map: old_img.map.clone() };
-    let writes = [WriteOp::StoreNew, WriteOp::StoreOverwrite, WriteOp::ChangePw];
+    let writes: Vec<WriteOp> = if part_on("C") { vec![WriteOp::StoreNew, WriteOp::StoreOverwrite, WriteOp::ChangePw] } else { vec![] };
     struct CrashJob {
         w: WriteOp,
         kind: &'static str,
@@ -760,6 +689,88 @@ fn main() {
         torn += torn_write_cases(&cx, w, &old_img.bytes, &old, &offsets);
     }
     let wall_c = t_c.elapsed().as_secs_f64();
+    // ---- (B) corruption ------------------------------------------------------------------------
+    let t_b = Instant::now();
+    let mut images = vec![build_image(&cx, "init; store(s1,S0); store(s2,S1)", &[Op::Store(0, 0, Pw::Cur), Op::Store(1, 1, Pw::Cur)])];
+    if !quick {
+        images.push(build_image(&cx, "init; store(s1,S0); change_password; store(s2,S1)", &[Op::Store(0, 0, Pw::Cur), Op::Change(Pw::Cur), Op::Store(1, 1, Pw::Cur)]));
+        images.push(build_image(&cx, "init; store(s1,S1)", &[Op::Store(0, 1, Pw::Cur)]));
+    }
+    let mut cases: Vec<(usize, Damage)> = Vec::new();
+    if !part_on("B") {
+        images.clear();
+    }
+    for (ii, img) in images.iter().enumerate() {
+        for i in 0..img.bytes.len() {
+            for b in 0..8 {
+                cases.push((ii, Damage::Flip(i, b)));
+            }
+            cases.push((ii, Damage::Set(i, 0x00)));
+            cases.push((ii, Damage::Set(i, 0xFF)));
+        }
+        for n in 0..img.bytes.len() {
+            cases.push((ii, Damage::Truncate(n)));
+        }
+        cases.push((ii, Damage::Append(0x00)));
+        cases.push((ii, Damage::Append(0xFF)));
+    }
+    let corr_evals = AtomicU64::new(0);
+    let corr_done = AtomicU64::new(0);
+    par_for(cases.len(), |i| {
+        if budget.exceeded() {
+            return;
+        }
+        let (ii, d) = &cases[i];
+        let img = &images[*ii];
+        let ids: Vec<usize> = if quick { vec![0] } else { img.map.keys().copied().collect() };
+        let n = corruption_case(&cx, img, d, &ids, !quick);
+        corr_evals.fetch_add(n, Ordering::Relaxed);
+        corr_done.fetch_add(1, Ordering::Relaxed);
+    });
+    let wall_b = t_b.elapsed().as_secs_f64();
+
+    // ---- (A) histories -------------------------------------------------------------------------
+    let mut ops: Vec<Op> = Vec::new();
+    for p in [Pw::Cur, Pw::Prev, Pw::Never] {
+        for id in 0..2 {
+            ops.push(Op::Retrieve(id, p));
+        }
+    }
+    for p in [Pw::Cur, Pw::Prev, Pw::Never] {
+        for id in 0..2 {
+            for s in 0..2 {
+                ops.push(Op::Store(id, s, p));
+            }
+        }
+    }
+    for p in [Pw::Cur, Pw::Prev, Pw::Never] {
+        ops.push(Op::Change(p));
+    }
+    ops.push(Op::ClearCache);
+    ops.push(Op::Reopen);
+    if !quick {
+        ops.push(Op::ChangeBack);
+        ops.push(Op::ChangeWeak);
+    }
+    let t_a = Instant::now();
+    let mismatch = AtomicU64::new(0);
+    // merged search to fix-point
+    let st_m = bfs(
+        ops.len(),
+        if part_on("A") { 12 } else { 0 },
+        &budget,
+        |h| hist_step(&cx, &ops, h, true),
+        |_a, _b| {
+            mismatch.fetch_add(1, Ordering::Relaxed);
+        },
+    );
+    let wall_merged = t_a.elapsed().as_secs_f64();
+    // every history up to depth d without merging
+    let d_plain = if part_on("A") { run.tier.pick(2, 4) } else { 0 };
+    let t_p = Instant::now();
+    let st_p = bfs(ops.len(), d_plain, &budget, |h| hist_step(&cx, &ops, h, false), |_a, _b| {});
+    let wall_plain = t_p.elapsed().as_secs_f64();
+
     let _ = std::fs::remove_dir_all(&root);
 
     // ---- wrap up ---------------------------------------------------------------------------------
@@ -773,8 +784,8 @@ fn main() {
     }
     if budget.was_hit() {
         run.cap_hit(format!("wall-clock budget; merged BFS depth {} (fixpoint {}), unmerged depth {} of {}, corruptions {} of {}, crash images {} of {}", st_m.completed_depth, st_m.fixpoint, st_p.completed_depth, d_plain, corr_done.load(Ordering::Relaxed), cases.len(), crash_done.load(Ordering::Relaxed), cjobs.len()));
-        if st_m.completed_depth == 0 {
-            run.machinery_error("not even depth 1 completed");
+        if st_m.completed_depth == 0 && part_on("A") {
+            run.machinery_error("not even depth 1 of the history search completed");
         }
     }
     let corr_done = corr_done.into_inner();
